@@ -85,7 +85,8 @@ class C19:
             cuts = sorted(rng.sample(range(len(data) + 1), min(len(data) + 1, rng.randint(0, 4))))
             ch = [data[a:b] for a, b in zip([0] + cuts, cuts + [len(data)])]
             # targets that take at most max bytes per write call (short writes are legal for any io::Write)
-            cases.append({"kind": "tee", "chunks": ch, "max_a": rng.choice([None, 1, 3, 64]), "max_b": rng.choice([None, 1, 2, 5])})
+            cases.append({"kind": "tee", "chunks": ch, "max_a": rng.choice([None, 1, 3, 64]), "max_b": rng.choice([None, 1, 2, 5]),
+                          "vectored": rng.random() < 0.4})
             cases.append({"kind": "mapped", "mapper": rng.choice(list(MAPPERS)), "marker": rng.choice([10, 0, 255]), "chunks": ch, "finish": "drop",
                           "max": rng.choice([None, 1, 7])})
         # long marker-free runs: a segment is mapped as ONE unit however long it is (internal buffering limits,
